@@ -24,6 +24,7 @@ pub fn main(sub: &str, args: &[String]) -> i32 {
         s if s.starts_with("doc-cost-") => cost::main(s, args),
         "doc-replay" => replay(args),
         "doc-record" => gen::record(args),
+        "doc-textedit" => gen::textedit(args),
         _ => {
             eprintln!("unknown subcommand {}", sub);
             2
@@ -138,9 +139,12 @@ fn replay(args: &[String]) -> i32 {
         } else {
             raw["parse"] != "panic" && merged["parse"] != "panic" && (!accepted(&raw) || rt_ok)
         };
-        let ev = json!({"i": i, "toks": case["toks"], "style": case["style"], "text": case["text"],
-                        "wf": case["wf"], "viol": case["viol"],
-                        "raw": raw, "merged": merged, "rt": rt, "fast": fast});
+        let mut ev = json!({"i": i, "toks": case["toks"], "style": case["style"], "text": case["text"],
+                            "wf": case["wf"], "viol": case["viol"],
+                            "raw": raw, "merged": merged, "rt": rt, "fast": fast});
+        if let Some(src) = case.get("src") {
+            ev["src"] = src.clone();
+        }
         writeln!(w, "{}", ev).unwrap();
     });
     0
